@@ -15,11 +15,16 @@ What is proved here (model M4 of `broker/src/broker/service.rs` and the event ha
   changes between empty and non-empty, membership changes only for the acting connection, and no empty
   entry is kept (`subscribe_transition`, `unsubscribe_transition`, `transitions_all_histories`), likewise for
   the all-events set (`subscribe_all_transition`, `unsubscribe_all_transition`).
+* who is told that a service is destroyed, for every service entry: exactly the connections subscribed to one of its
+  events or to the service itself, each once (`service_destroyed_audience`); `remove_service` queues one
+  `ServiceDestroyed` notification for each of them that is still connected, each once, and nothing else
+  (`service_destroyed_queued_once`; the work loop then sends one message per queued notification).
 Partial: agreement of the per-connection mirror (`ConnectionState.events`) with the per-service sets over
-histories with disconnects, and the once-only `ServiceDestroyed` fan-out, are tied by the correspondence
-runs, not proved.
+histories with disconnects is tied by the correspondence runs, not proved; the owner's client-side record of what
+it was told to produce by scenario B of the `sys` harness.
 -/
 import Aldrin.Lemmas.Broker.Events
+import Aldrin.Lemmas.Broker.SvcDestroyed
 
 namespace Aldrin.Broker
 
@@ -73,5 +78,24 @@ example : (match run {} {} [.newConn 0 20, .newConn 1 20, .newConn 2 20, .msg 0 
     | .ok (_, _, outs) => outs.drop 5 | .error _ => []) =
     [[⟨1, .subscribeEventReply 3 .ok, none⟩, ⟨0, .subscribeEvent 1 7, none⟩], [⟨2, .subscribeEventReply 4 .ok, none⟩],
      [⟨1, .emitEvent 1 7 [3, 9], some 20⟩, ⟨2, .emitEvent 1 7 [3, 9], some 20⟩], [], [⟨0, .unsubscribeEvent 1 7, none⟩]] := by decide
+
+/-- **Who is told that a service is gone**: `Service::subscribed_conn_ids` lists exactly the connections subscribed to
+one of the service's events or to the service itself, and lists each once. -/
+theorem service_destroyed_audience (s : Svc) :
+    s.subscribedConnIds.Nodup ∧ ∀ x, x ∈ s.subscribedConnIds ↔ (∃ p, p ∈ s.events ∧ x ∈ p.2) ∨ x ∈ s.subs :=
+  subscribedConnIds_spec s
+
+/-- … and `remove_service` queues, for a list of such connections, one `ServiceDestroyed` notification per connection of
+the list that is still there (in turn, newest first), and nothing else. With `service_destroyed_audience`: each
+subscribed connection that is still connected is notified once. -/
+theorem service_destroyed_queued_once (svcCookie : Cookie) (l : List ConnId) (s : St) :
+    (l.foldl (fun s cid =>
+          match s.conn? cid with
+          | some c =>
+            let s := s.setConn cid (c.unsubscribeAllOf svcCookie)
+            (s.setWServicesDestroyed ((cid, svcCookie) :: s.w.servicesDestroyed))
+          | none => s) s).w.servicesDestroyed =
+      ((l.filter (fun cid => (s.conn? cid).isSome)).map (fun cid => (cid, svcCookie))).reverse ++ s.w.servicesDestroyed :=
+  (queue_destroyed_spec svcCookie l s).1
 
 end Aldrin.Broker
